@@ -936,3 +936,76 @@ func wrapperShape(info *types.Info, fi *FuncInfo, param types.Object, idx int) *
 func containsNode(n, target ast.Node) bool {
 	return n.Pos() <= target.Pos() && target.End() <= n.End()
 }
+
+// --- a reusable boolean must-analysis -----------------------------------------------------
+
+// mustFlag runs a forward "has X been established on every path" analysis over fi, with
+// private helpers analysed in place.  The flag starts false; set(n, res) may set or clear it
+// at a node (change=false leaves it alone); onCond(key, truth) may set it along the edge on
+// which the canonical atom key has the given truth value (conjunctions and negations are
+// decomposed; for a disjunction both alternatives must establish it).  Flags are and-ed at
+// joins.  The result maps every return statement of fi itself (nil key: falling off the end)
+// and every visited node to the flag before it.
+func mustFlag(db *SiteDB, fi *FuncInfo, set func(n ast.Node, res *resolver) (val, change bool), onCond func(key string, truth bool) bool) (exits map[*ast.ReturnStmt]bool, at map[ast.Node]bool) {
+	l := db.L
+	info := fi.Pkg.TypesInfo
+	exits = map[*ast.ReturnStmt]bool{}
+	at = map[ast.Node]bool{}
+	seenExit := map[*ast.ReturnStmt]bool{}
+	seenAt := map[ast.Node]bool{}
+	resOf := frameResolvers[bool](l, info, newResolver(l, info, fi.Decl))
+	a := &Analysis[bool]{L: l, Info: info, Wrappers: db.Wrappers, Inline: inlinePolicy[bool](db, fi),
+		Join:  func(x, y bool) bool { return x && y },
+		Equal: func(x, y bool) bool { return x == y },
+		Copy:  func(x bool) bool { return x },
+	}
+	a.Stmt = func(s bool, n ast.Node, fc *FlowCtx[bool]) bool {
+		if _, isDefer := n.(*ast.DeferStmt); isDefer {
+			return s
+		}
+		if v, ch := set(n, resOf(fc)); ch {
+			return v
+		}
+		return s
+	}
+	var implied func(res *resolver, cond ast.Expr, branch bool) bool
+	implied = func(res *resolver, cond ast.Expr, branch bool) bool {
+		cond = unparen(cond)
+		if u, ok := cond.(*ast.UnaryExpr); ok && u.Op == token.NOT {
+			return implied(res, u.X, !branch)
+		}
+		if be, ok := cond.(*ast.BinaryExpr); ok && (be.Op == token.LAND || be.Op == token.LOR) {
+			if (be.Op == token.LAND) == branch {
+				return implied(res, be.X, branch) || implied(res, be.Y, branch)
+			}
+			return implied(res, be.X, branch) && implied(res, be.Y, branch)
+		}
+		key, pol := atomOf(res, info, l.parent, cond)
+		return onCond(key, pol == branch)
+	}
+	a.Cond = func(s bool, cond ast.Expr, branch bool, fc *FlowCtx[bool]) bool {
+		if onCond != nil && implied(resOf(fc), cond, branch) {
+			return true
+		}
+		return s
+	}
+	a.Visit = func(s bool, n ast.Node, fc *FlowCtx[bool]) {
+		if seenAt[n] {
+			at[n] = at[n] && s
+		} else {
+			at[n], seenAt[n] = s, true
+		}
+	}
+	a.Exit = func(s bool, ret *ast.ReturnStmt, fc *FlowCtx[bool]) {
+		if fc.Parent != nil {
+			return
+		}
+		if seenExit[ret] {
+			exits[ret] = exits[ret] && s
+		} else {
+			exits[ret], seenExit[ret] = s, true
+		}
+	}
+	a.Run(fi.Decl, false)
+	return
+}
